@@ -958,6 +958,15 @@ impl ConnectionPool {
         }
     }
 
+    /// Check if a ban placed at `timestamp` has run its course.
+    fn ban_expired(&self, ban_reason: &BanReason, timestamp: &NaiveDateTime) -> bool {
+        let now = chrono::offset::Utc::now().naive_utc();
+        match ban_reason {
+            BanReason::AdminBan(duration) => now.timestamp() - timestamp.timestamp() > *duration,
+            _ => now.timestamp() - timestamp.timestamp() > self.settings.ban_time,
+        }
+    }
+
     /// Determines trying to unban this server was successful
     pub async fn try_unban(&self, address: &Address) -> bool {
         // If somehow primary ends up being banned we should return true here
@@ -973,8 +982,13 @@ impl ConnectionPool {
 
         debug!("Available targets: {}", replicas_available);
 
+        // A ban that has run out no longer counts, even if nobody removed it from the list yet.
         let read_guard = self.banlist.read();
-        let all_replicas_banned = read_guard[address.shard].len() == replicas_available;
+        let running_bans = read_guard[address.shard]
+            .values()
+            .filter(|(ban_reason, timestamp)| !self.ban_expired(ban_reason, timestamp))
+            .count();
+        let all_replicas_banned = running_bans == replicas_available;
         drop(read_guard);
 
         if all_replicas_banned {
@@ -988,15 +1002,7 @@ impl ConnectionPool {
         // Check if ban time is expired
         let read_guard = self.banlist.read();
         let exceeded_ban_time = match read_guard[address.shard].get(address) {
-            Some((ban_reason, timestamp)) => {
-                let now = chrono::offset::Utc::now().naive_utc();
-                match ban_reason {
-                    BanReason::AdminBan(duration) => {
-                        now.timestamp() - timestamp.timestamp() > *duration
-                    }
-                    _ => now.timestamp() - timestamp.timestamp() > self.settings.ban_time,
-                }
-            }
+            Some((ban_reason, timestamp)) => self.ban_expired(ban_reason, timestamp),
             None => return true,
         };
         drop(read_guard);
